@@ -578,6 +578,7 @@ class SimBus:
         self.route_by_data0 = False   # stand-in for the dispatcher's ethertype rewrite
         self.send_fault = None        # callable -> True: sendto() fails with ENOBUFS
         self.delay_for = None         # callable(no, frame) -> seconds to hold this frame back
+        self.socket_drop = None       # callable(no, frame) -> True: lost between XDP and sockets
 
     def add_terminal(self, term):
         self.terminals.append(term)
@@ -714,6 +715,11 @@ class SimBus:
     def deliver_to_sockets(self, no, frame):
         proto, = struct.unpack_from("!H", frame, 12)
         n = 0
+        if self.socket_drop is not None and self.socket_drop(no, frame):
+            # the receive queue of the packet sockets is full (user space does not get
+            # to read it): the frame is dropped after the XDP hook has seen it
+            self.world.count("fault/frame-dropped-at-the-socket")
+            return
         for s in list(self.sockets):
             if s.accepts(self.ifname, proto):
                 s.deliver(frame[14:], (self.ifname, proto, 0, 1, frame[6:12]))
